@@ -826,7 +826,13 @@ def range_sweep(tier: str) -> dict:
     extra = {"c0": [("a", "c"), ("x", "\x7f")], "c1": [("\x7f", "\x80")], "c2": [("\x00", "\x7f")]}
     common = set(range(0x180)) | {0x7FF, 0x800, 0xD7FF, 0xE000, 0xFFFD, 0xFFFF, 0x10000, 0x1FFFF, 0x20000, 0x10FFFF, 0x212A, 0x17F, 0x130, 0x131, 0xFF21, 0xFF41}
     for opt in (True, False):
-        p = Parser.from_grammar(g) if opt else Parser.from_grammar(g, optimizer=None)
+        try:
+            p = Parser.from_grammar(g) if opt else Parser.from_grammar(g, optimizer=None)
+        except Exception as e:  # noqa: BLE001
+            # every range is written with a \\u{..} escape of 2-6 hex digits of a code point <= 10FFFF: a valid grammar
+            # (round-7 seed C12d decoded 3- and 5-digit escapes wrongly and this stand-in crashed instead of reporting it)
+            bad.append({"what": f"a grammar of valid \\u{{..}} ranges was rejected: {type(e).__name__}: {e}"[:200], "optimized": opt})
+            continue
         ns: dict = {}
         exec(compile(p.generate(), "<g>", "exec"), ns)  # noqa: S102
         rules = [(f"r{i}", [(a, b)]) for i, (a, b) in enumerate(RANGES)] + list(extra.items())
@@ -849,7 +855,7 @@ def range_sweep(tier: str) -> dict:
                     except Exception:  # noqa: BLE001
                         got = False
                     if got != exp:
-                        bad.append({"rule": str(p.rules[name]) if not opt else name, "ranges": [[hex(ord(a)), hex(ord(b))] for a, b in rs], "cp": hex(cp), "mode": mode + ("+opt" if opt else ""), "accepted": got})
+                        bad.append({"rule": str(p.rules[name]) if not opt else name, "ranges": [[hex(ord(a)), hex(ord(b))] for a, b in rs], "cp": hex(cp), "mode": mode + ("+opt" if opt else ""), "accepted": got, "what": "range membership"})
                         break
             if len(bad) > 4:
                 break
@@ -871,7 +877,7 @@ def concretise(tier, seed, refuted, undecided, known):
     if undecided or refuted:
         rs = range_sweep(tier)
         for d in rs["details"][:1]:
-            out.append({"found": True, "for": None, "input": d, "observed": f"accepted={d['accepted']}",
+            out.append({"found": True, "for": None, "input": d, "observed": d.get("what"),
                         "cmd": "cd /verif && .venv/bin/python -c \"from contracts import c12; print(c12.range_sweep('quick'))\""})
     r = escapes_check()
     for d in r["details"][:1]:
